@@ -153,7 +153,7 @@ def gen_case(rnd, B):
                 "nt": len(exp) >= 3 or slack != 0}
     if kind == "time":
         unit, mul = rnd.choice((("h", 3600), ("m", 60), ("s", 1)))
-        k = rnd.choice((1, 1, 2, 5, 15, 30, 45, 90, 7)) if unit != "h" else rnd.choice((1, 1, 2, 3, 6, 12))
+        k = rnd.choice((1, 1, 2, 5, 15, 30, 45, 90, 90, 75, 150, 7)) if unit != "h" else rnd.choice((1, 1, 2, 3, 6, 12))
         sign = rnd.choice((1, 1, -1))
         inc_s = k * mul
         s0 = rnd.choice((0, 1, 3600, 43200, 79200, 86399, rnd.randrange(86400)))
@@ -168,6 +168,11 @@ def gen_case(rnd, B):
         last = (s0 + sign * (K * inc_s + slack)) % 86400
         exp = [R.hms((s0 + sign * j * inc_s) % 86400) for j in range(K + 1)]
         inc = "%s%d%s" % ("-" if sign < 0 else "", k, unit)
+        if unit == "m" and inc_s > 3600 and inc_s % 3600 and rnd.random() < 0.7:
+            # the same increment spelled as a compound one, e.g. 90m as 1h30m or 30m1h
+            hh, mm = divmod(k, 60)
+            sg = "-" if sign < 0 else ""
+            inc = rnd.choice(("%s%dh%dm" % (sg, hh, mm), "%s%dm%dh" % (sg, mm, hh)))
         wraps = (sign > 0 and s0 + K * inc_s + slack >= 86400) or (sign < 0 and s0 - K * inc_s - slack < 0)
         cfl = rnd.random() < 0.25
         if cfl:
